@@ -330,7 +330,7 @@ nni_id_alloc(nni_id_map *m, uint64_t *idp, void *val)
 	for (;;) {
 		id = m->id_dyn_val;
 		m->id_dyn_val++;
-		if (m->id_dyn_val > m->id_max_val) {
+		if ((m->id_dyn_val > m->id_max_val) || (m->id_dyn_val == 0)) {
 			m->id_dyn_val = m->id_min_val;
 		}
 
